@@ -100,3 +100,14 @@ def scalar_weight_count_before_length_known():
     h = hg.Branch(hg.Count(), hg.Minimize(lambda d: d))
     h.fill.numpy(np.array([1.0, 2.0, 3.0]))
     return h.values[0].entries != 3.0
+
+
+def named_after_cached_string_raises():
+    """C17: a string expression gets its own text as name when first wrapped, so named() after cached() raises"""
+    from histogrammar.util import cached, named
+
+    try:
+        named("n", cached("x + 1"))
+        return False
+    except ValueError:
+        return True
